@@ -63,6 +63,9 @@ def run(S):
             err = max(abs(f2(2.0 * i) - f(float(i))) for i in range(n + 1))
             if err > 1e-7 * scale:
                 prob.append("doubling: max |f2(2i)-f1(i)|=%g" % err)
+        except ValueError as e:
+            # an explicit refusal of the finer grid (allowed: C12), as for the base resolution above
+            refused.append(dict(n=2 * n, lower=lo, upper=up, kw=kw2, error="at doubled resolution: " + str(e)[:80]))
         except Exception as e:
             prob.append("doubling raised %r" % e)
         classes.add((which, rl < 1.0 + 1e-8, ru < 1.0 + 1e-8 if which == "both" else None, lo < up, n))
